@@ -94,6 +94,8 @@ def main():
             continue
         i, j = s.index(a) + len(a), s.index(b)
         s = s[:i] + '\n' + fn() + '\n' + s[j:]
+    nfix = subprocess.run("git -C /repo log --format=%s | grep -c '^fix:'", shell=True, capture_output=True, text=True).stdout.strip()
+    s = re.sub(r'\d+ `fix:` commits were made', nfix + ' `fix:` commits were made', s)
     open(p, 'w').write(s)
     print('DESIGN.md regenerated')
 
